@@ -3,10 +3,10 @@ import TxdbusModel.Route.Rule
 C12 - CODE MODEL of the rule text: `DBusClientConnection.addMatch` (rendering, client.py) and
 `Bus.dbus_AddMatch` (parsing, bus.py).
 
-Python behaviour mirrored by hand: `'%d' % idx` for `idx >= 0`, `','.join`, `str.split(sep)`
-(always at least one piece), tuple unpacking of the pieces (`ValueError` unless exactly two),
-slice `v[1:-1]` and `k[3:-4]` (clamping), `int(s)` decided for ASCII digit strings and for strings
-that certainly are no integer literal; sign, blanks, `_` and non-ASCII digits are answered
+Python behaviour mirrored by hand: `'%d' % idx` for `idx >= 0`, `str.replace`, `','.join`,
+`str.find`, the index loop of `_parseMatchRule` with its one-character look-ahead
+`rule[i + 1:i + 2]`, slice `k[3:-4]` (clamping), `int(s)` decided for ASCII digit strings and for
+strings that certainly are no integer literal; sign, blanks, `_` and non-ASCII digits are answered
 `outOfDomain` (the harness skips the comparison there and counts it).
 -/
 namespace Txdbus.Route
@@ -24,29 +24,37 @@ def natDigits (n : Nat) : List Char := natDigitsFuel (n + 1) n
 
 /-! ### client.py: rendering -/
 
-/-- `f"{k}='{v}'"`. -/
-def renderItem (k v : Str) : Str := k ++ ('=' :: '\'' :: (v ++ ['\'']))
+/-- `str(v).replace("'", "'\\''")`: an apostrophe becomes close-quote, backslash-apostrophe, open-quote. -/
+def escapeQuotes : Str → Str
+  | [] => []
+  | c :: t => if c = '\'' then '\'' :: '\\' :: '\'' :: '\'' :: escapeQuotes t else c :: escapeQuotes t
 
-/-- The local `add(k, v)`: `if v is not None: l.append(...)`. -/
-def optItem (k : Str) : Option Str → List Str
+/-- The value as it is written between the apostrophes (`esc`: whether the source escapes). -/
+def quotedValue (esc : Bool) (v : Str) : Str := if esc then escapeQuotes v else v
+
+/-- `f"{k}='{v}'"` (after the escaping). -/
+def renderItemWith (esc : Bool) (k v : Str) : Str := k ++ ('=' :: '\'' :: (quotedValue esc v ++ ['\'']))
+
+/-- The local `add(k, v)`: `if v is not None: ...; l.append(...)`. -/
+def optItem (esc : Bool) (k : Str) : Option Str → List Str
   | none => []
-  | some v => [renderItem k v]
+  | some v => [renderItemWith esc k v]
 
 def argKey (i : Nat) : Str := "arg".toList ++ natDigits i
 def argPathKey (i : Nat) : Str := "arg".toList ++ natDigits i ++ "path".toList
 
 /-- The list `l` built by `DBusClientConnection.addMatch`. -/
-def renderItems (a : RuleArgs) : List Str :=
-  optItem "type".toList a.mtype
-  ++ optItem "sender".toList a.sender
-  ++ optItem "interface".toList a.iface
-  ++ optItem "member".toList a.member
-  ++ optItem "path".toList a.path
-  ++ optItem "path_namespace".toList a.pathNs
-  ++ optItem "destination".toList a.dest
-  ++ (a.args.getD []).map (fun iv => renderItem (argKey iv.1) iv.2)           -- `if arg:` + loop
-  ++ (a.argPaths.getD []).map (fun iv => renderItem (argPathKey iv.1) iv.2)   -- `if arg_path:` + loop
-  ++ optItem "arg0namespace".toList a.arg0ns
+def renderItemsWith (esc : Bool) (a : RuleArgs) : List Str :=
+  optItem esc "type".toList a.mtype
+  ++ optItem esc "sender".toList a.sender
+  ++ optItem esc "interface".toList a.iface
+  ++ optItem esc "member".toList a.member
+  ++ optItem esc "path".toList a.path
+  ++ optItem esc "path_namespace".toList a.pathNs
+  ++ optItem esc "destination".toList a.dest
+  ++ (a.args.getD []).map (fun iv => renderItemWith esc (argKey iv.1) iv.2)           -- `if arg:` + loop
+  ++ (a.argPaths.getD []).map (fun iv => renderItemWith esc (argPathKey iv.1) iv.2)   -- `if arg_path:` + loop
+  ++ optItem esc "arg0namespace".toList a.arg0ns
 
 /-- `sep.join(l)` for a one-character separator. -/
 def joinWith (c : Char) : List Str → Str
@@ -55,19 +63,14 @@ def joinWith (c : Char) : List Str → Str
   | x :: y :: t => x ++ c :: joinWith c (y :: t)
 
 /-- The rule text sent in `AddMatch`. -/
-def renderRule (a : RuleArgs) : Str := joinWith ',' (renderItems a)
+def renderRuleWith (esc : Bool) (a : RuleArgs) : Str := joinWith ',' (renderItemsWith esc a)
+
+/-- The current client (it escapes; `tables_current` pins `Tables.gen.clientEscapes = true`). -/
+def renderItem (k v : Str) : Str := renderItemWith true k v
+def renderItems (a : RuleArgs) : List Str := renderItemsWith true a
+def renderRule (a : RuleArgs) : Str := renderRuleWith true a
 
 /-! ### bus.py: parsing -/
-
-/-- Python `s.split(c)` for a one-character separator. -/
-def splitOn (c : Char) : List Char → List Str
-  | [] => [[]]
-  | x :: t =>
-    if x = c then [] :: splitOn c t
-    else
-      match splitOn c t with
-      | p :: ps => (x :: p) :: ps
-      | [] => [[x]]
 
 def isAsciiDigit (c : Char) : Bool := '0' ≤ c && c ≤ '9'
 
@@ -93,13 +96,61 @@ def parseNat (s : Str) : IntResult :=
   else .outOfDomain
 
 inductive ParseErr where
-  | valueError      -- tuple unpacking or `int()` failed
+  | valueError      -- an item without `=`, an unterminated quote, or `int()` failed
   | outOfDomain     -- not modelled: the text assigns a string to `args` / `arg_paths` directly, or an
                     -- argument index that `int()` might accept but is not a plain ASCII digit string
   deriving DecidableEq, Repr
 
-/-- `v[1:-1]`. -/
-def sliceInner (v : Str) : Str := (v.drop 1).dropLast
+/-- State of the inner loop of `_parseMatchRule`: `quoted = False`, `quoted = True`, and "the
+previous character was a backslash outside quotes" - the model's way of writing the look-ahead
+`c == '\\\\' and rule[i + 1:i + 2] == "'"`: the backslash is emitted as itself unless an apostrophe follows. -/
+inductive BQ where
+  | plain | quoted | bs
+  deriving DecidableEq, Repr
+
+def consB (c : Char) (vr : Str × Str) : Str × Str := (c :: vr.1, vr.2)
+
+/-- The inner `while i < n` loop: the value, and the text after the comma that ended it (`[]` when the
+text ended).  `none`: `ValueError` (unterminated quote). -/
+def busScanValue : BQ → List Char → Option (Str × Str)
+  | .plain, [] => some ([], [])
+  | .quoted, [] => none
+  | .bs, [] => some (['\\'], [])
+  | .quoted, c :: t =>
+    if c = '\'' then busScanValue .plain t else (busScanValue .quoted t).map (consB c)
+  | .plain, c :: t =>
+    if c = '\'' then busScanValue .quoted t
+    else if c = ',' then some ([], t)
+    else if c = '\\' then busScanValue .bs t
+    else (busScanValue .plain t).map (consB c)
+  | .bs, c :: t =>
+    if c = '\'' then (busScanValue .plain t).map (consB '\'')
+    else if c = ',' then some (['\\'], t)
+    else if c = '\\' then (busScanValue .bs t).map (consB '\\')
+    else (busScanValue .plain t).map (fun vr => consB '\\' (consB c vr))
+
+/-- `j = rule.find('=', i); key = rule[i:j]`: `none` when there is no `=` (`ValueError`). -/
+def busScanKey : List Char → Option (Str × Str)
+  | [] => none
+  | c :: t => if c = '=' then some ([], t) else (busScanKey t).map (fun kr => (c :: kr.1, kr.2))
+
+/-- The outer `while i < n` loop of `_parseMatchRule` (fuel: the text gets shorter every round). -/
+def busItems : Nat → Str → Except ParseErr (List (Str × Str))
+  | _, [] => .ok []                      -- `while i < n` ends
+  | 0, _ :: _ => .error .valueError      -- unreachable with the fuel `parseMatchRule` supplies
+  | fuel + 1, c :: t =>
+    match busScanKey (c :: t) with
+    | none => .error .valueError
+    | some (k, rest) =>
+      match busScanValue .plain rest with
+      | none => .error .valueError
+      | some (v, more) =>
+        match busItems fuel more with
+        | .error e => .error e
+        | .ok l => .ok ((k, v) :: l)
+
+/-- `_parseMatchRule(rule)`. -/
+def parseMatchRule (text : Str) : Except ParseErr (List (Str × Str)) := busItems (text.length + 1) text
 
 /-- `k[3:-4]`. -/
 def slice3m4 (k : Str) : Str := (k.take (k.length - 4)).drop 3
@@ -117,34 +168,31 @@ def setParam (a : RuleArgs) (p : Param) (v : Str) : Option RuleArgs :=
   | .args => none
   | .argPaths => none
 
-/-- One iteration of `for item in rule.split(',')`. -/
-def parseItem (kwKeys : List Str) (a : RuleArgs) (item : Str) : Except ParseErr RuleArgs :=
-  match splitOn '=' item with
-  | [k0, v] =>
-    let value := sliceInner v
-    let k := if k0 = "type".toList then "mtype".toList else k0
-    if kwKeys.contains k then
-      match Param.ofName k with
+/-- One iteration of `for k, value in _parseMatchRule(rule)` in `dbus_AddMatch`. -/
+def parseItem (kwKeys : List Str) (a : RuleArgs) (kv : Str × Str) : Except ParseErr RuleArgs :=
+  let value := kv.2
+  let k := if kv.1 = "type".toList then "mtype".toList else kv.1
+  if kwKeys.contains k then
+    match Param.ofName k with
+    | none => .error .outOfDomain
+    | some p =>
+      match setParam a p value with
+      | some a' => .ok a'
       | none => .error .outOfDomain
-      | some p =>
-        match setParam a p value with
-        | some a' => .ok a'
-        | none => .error .outOfDomain
-    else if "arg".toList.isPrefixOf k then
-      if "path".toList.isSuffixOf k then
-        match parseNat (slice3m4 k) with
-        | .valueError => .error .valueError
-        | .outOfDomain => .error .outOfDomain
-        | .ok i => .ok { a with argPaths := some (a.argPaths.getD [] ++ [(i, value)]) }
-      else
-        match parseNat (k.drop 3) with
-        | .valueError => .error .valueError
-        | .outOfDomain => .error .outOfDomain
-        | .ok i => .ok { a with args := some (a.args.getD [] ++ [(i, value)]) }
-    else .ok a
-  | _ => .error .valueError
+  else if "arg".toList.isPrefixOf k then
+    if "path".toList.isSuffixOf k then
+      match parseNat (slice3m4 k) with
+      | .valueError => .error .valueError
+      | .outOfDomain => .error .outOfDomain
+      | .ok i => .ok { a with argPaths := some (a.argPaths.getD [] ++ [(i, value)]) }
+    else
+      match parseNat (k.drop 3) with
+      | .valueError => .error .valueError
+      | .outOfDomain => .error .outOfDomain
+      | .ok i => .ok { a with args := some (a.args.getD [] ++ [(i, value)]) }
+  else .ok a
 
-def parseItems (kwKeys : List Str) : RuleArgs → List Str → Except ParseErr RuleArgs
+def parseItems (kwKeys : List Str) : RuleArgs → List (Str × Str) → Except ParseErr RuleArgs
   | a, [] => .ok a
   | a, it :: t =>
     match parseItem kwKeys a it with
@@ -153,9 +201,11 @@ def parseItems (kwKeys : List Str) : RuleArgs → List Str → Except ParseErr R
 
 /-- The `kwargs` computed by `Bus.dbus_AddMatch(rule)`. -/
 def parseRule (kwKeys : List Str) (text : Str) : Except ParseErr RuleArgs :=
-  parseItems kwKeys {} (splitOn ',' text)
+  match parseMatchRule text with
+  | .error e => .error e
+  | .ok items => parseItems kwKeys {} items
 
-/-- The keys of the `kwargs` literal the theorems are proved for (`busKeys_current` in
+/-- The keys of the `kwargs` literal the theorems are proved for (`tables_current` in
 Properties/C12 states that the source still has exactly these). -/
 def curBusKeys : List Str :=
   ["mtype".toList, "sender".toList, "interface".toList, "member".toList, "path".toList,
